@@ -83,9 +83,9 @@ PROPS = {
 
 ORACLE = {
     'C01': r'^(obs |BAD |free |cb drop |res (some|none))', 'C02': r'^(sobs |free |cb drop )', 'C03': r'^(free |sfree |alloc |cb drop )',
-    'C04': r'^(obs |free |cb (fin|drop) )', 'C05': r'^(cb fin |obs )', 'C06': r'^(obs |cb (fin|drop) |free |res (some|none)|sobs )',
+    'C04': r'^(obs |free |cb (fin|drop) )', 'C05': r'^(cb (fin|drop) |obs )', 'C06': r'^(obs |cb (fin|drop) |free |res (some|none)|sobs )',
     'C07': r'^(res panicked|state |sobs )', 'C08': r'^(res (some|none)|obs )', 'C09': r'^(wobs |obs |sfree |salloc )',
-    'C10': r'^(cb action )', 'C11': r'^(sobs |buf )', 'C12': r'^(cb |sobs |res (unwrap|panicked))', 'C13': r'^(res unwrap|free |sobs |res (some|none)|wobs )',
+    'C10': r'^(cb action )', 'C11': r'^(sobs |buf |snap )', 'C12': r'^(cb |sobs |res (unwrap|panicked))', 'C13': r'^(res unwrap|free |sobs |res (some|none)|wobs )',
     'C14': r'^(wobs |res (some|none)|free |sfree |cb drop |obs )', 'C15': r'^(state |sobs |cb trace )', 'C16': r'^(res panicked|obs |wobs )',
 }
 
@@ -98,6 +98,7 @@ COMPONENTS = {
     'C19': [('threads', 'check_threads.py')],
     'C15': [('leaf', 'leafcheck.py')],
     'C16': [('leaf', 'leafcheck.py'), ('limits', 'check_limits.py')],
+    'C09': [('limits', 'check_limits.py')],
     'C12': [('leaf', 'leafcheck.py')],
 }
 
